@@ -1,0 +1,221 @@
+// Verification hooks (feature `verif`, off by default).
+//
+// Everything in here is a no-op unless an external simulator installs a `Hooks` object.
+// The shipped behaviour of the crate is unchanged when the feature is disabled: the
+// module is not even compiled.
+
+#![allow(
+    missing_docs,
+    clippy::missing_panics_doc,
+    clippy::must_use_candidate,
+    clippy::expect_used
+)]
+
+use crate::{SeqNo, TableId};
+use std::sync::{Mutex, OnceLock, RwLock, TryLockError};
+
+/// Callbacks implemented by the simulator.
+pub trait Hooks: Sync + Send {
+    /// Called before a lock acquisition (and at other yield sites).
+    /// The simulator may deschedule the calling thread here.
+    fn yield_point(&self, site: &'static str);
+
+    /// Called when a lock probe found the lock taken; must deschedule the calling
+    /// thread until some other thread has made progress.
+    fn blocked(&self, site: &'static str);
+
+    /// Simulated wall clock (`None` = use the system clock).
+    fn now(&self) -> Option<std::time::Duration>;
+
+    /// Reach probe: a rare branch was taken.
+    fn reach(&self, name: &'static str);
+}
+
+static HOOKS: OnceLock<&'static dyn Hooks> = OnceLock::new();
+
+/// Installs the simulator's hooks (once per process).
+pub fn install(hooks: &'static dyn Hooks) {
+    let _ = HOOKS.set(hooks);
+}
+
+#[inline]
+fn hooks() -> Option<&'static dyn Hooks> {
+    HOOKS.get().copied()
+}
+
+#[inline]
+pub fn yield_point(site: &'static str) {
+    if let Some(h) = hooks() {
+        h.yield_point(site);
+    }
+}
+
+#[inline]
+pub fn reach(name: &'static str) {
+    if let Some(h) = hooks() {
+        h.reach(name);
+    }
+}
+
+#[inline]
+pub fn now() -> Option<std::time::Duration> {
+    hooks().and_then(Hooks::now)
+}
+
+/// Scheduling point + try-lock probe before `Mutex::lock`.
+///
+/// After this returns, the real `lock()` that follows cannot block as long as the
+/// simulator runs one thread at a time.
+pub fn probe_mutex<T: ?Sized>(lock: &Mutex<T>, site: &'static str) {
+    let Some(h) = hooks() else { return };
+    h.yield_point(site);
+    loop {
+        match lock.try_lock() {
+            Ok(_) | Err(TryLockError::Poisoned(_)) => return,
+            Err(TryLockError::WouldBlock) => h.blocked(site),
+        }
+    }
+}
+
+/// Scheduling point + try-lock probe before `RwLock::read`.
+pub fn probe_read<T: ?Sized>(lock: &RwLock<T>, site: &'static str) {
+    let Some(h) = hooks() else { return };
+    h.yield_point(site);
+    loop {
+        match lock.try_read() {
+            Ok(_) | Err(TryLockError::Poisoned(_)) => return,
+            Err(TryLockError::WouldBlock) => h.blocked(site),
+        }
+    }
+}
+
+/// Scheduling point + try-lock probe before `RwLock::write`.
+pub fn probe_write<T: ?Sized>(lock: &RwLock<T>, site: &'static str) {
+    let Some(h) = hooks() else { return };
+    h.yield_point(site);
+    loop {
+        match lock.try_write() {
+            Ok(_) | Err(TryLockError::Poisoned(_)) => return,
+            Err(TryLockError::WouldBlock) => h.blocked(site),
+        }
+    }
+}
+
+//
+// Read-only accessors for the structural auditor (fields are `pub(crate)`).
+//
+
+/// `(min seqno, max seqno)` as recorded in the table's metadata (without global seqno).
+pub fn table_seqnos(table: &crate::Table) -> (SeqNo, SeqNo) {
+    table.verif_seqnos()
+}
+
+/// `(len, bytes, on_disk_bytes)` of a fragmentation entry.
+pub fn frag_entry(e: &crate::blob_tree::FragmentationEntry) -> (usize, u64, u64) {
+    (e.len, e.bytes, e.on_disk_bytes)
+}
+
+/// One entry of the version history.
+#[derive(Debug, Clone)]
+pub struct HistoryEntry {
+    pub version_id: u64,
+    pub seqno: SeqNo,
+    pub active_memtable_id: u64,
+    pub sealed_memtable_ids: Vec<u64>,
+    pub table_ids: Vec<TableId>,
+    pub blob_file_ids: Vec<u64>,
+}
+
+fn index_tree(tree: &crate::AnyTree) -> &crate::Tree {
+    match tree {
+        crate::AnyTree::Standard(t) => t,
+        crate::AnyTree::Blob(b) => &b.index,
+    }
+}
+
+/// Lists the version history (oldest first). Takes the version-history read lock.
+pub fn history(tree: &crate::AnyTree) -> Vec<HistoryEntry> {
+    let t = index_tree(tree);
+    let guard = t.version_history.read().expect("lock is poisoned");
+    guard
+        .verif_iter()
+        .map(|sv| HistoryEntry {
+            version_id: sv.version.id(),
+            seqno: sv.seqno,
+            active_memtable_id: sv.active_memtable.id,
+            sealed_memtable_ids: sv.sealed_memtables.iter().map(|m| m.id).collect(),
+            table_ids: sv.version.iter_tables().map(crate::Table::id).collect(),
+            blob_file_ids: sv.version.blob_files.list_ids().copied().collect(),
+        })
+        .collect()
+}
+
+/// Returns `true` if the version-history lock is currently free (try-lock).
+pub fn history_lock_is_free(tree: &crate::AnyTree) -> bool {
+    index_tree(tree).version_history.try_write().is_ok()
+}
+
+/// Version that a reader with snapshot `seqno` would resolve to.
+pub fn version_for_snapshot(tree: &crate::AnyTree, seqno: SeqNo) -> crate::version::Version {
+    index_tree(tree).get_version_for_snapshot(seqno).version
+}
+
+/// IDs of tables currently hidden by running compactions.
+pub fn hidden_table_ids(tree: &crate::AnyTree) -> Vec<TableId> {
+    let t = index_tree(tree);
+    let guard = t.compaction_state.lock().expect("lock is poisoned");
+    let mut v: Vec<_> = guard.hidden_set().set.iter().copied().collect();
+    v.sort_unstable();
+    v
+}
+
+/// Decoded content of the version file named by `current`.
+#[derive(Debug, Clone)]
+pub struct DecodedVersionFile {
+    pub version_id: u64,
+    pub tree_type: u8,
+    /// level -> run -> (table id, checksum, global seqno)
+    pub levels: Vec<Vec<Vec<(TableId, u128, SeqNo)>>>,
+    pub blob_files: Vec<(u64, u128)>,
+    pub gc_stats: Vec<(u64, usize, u64, u64)>,
+}
+
+/// Decodes the on-disk version named by `current` with the crate's own decoder.
+pub fn decode_current_version(folder: &std::path::Path) -> crate::Result<DecodedVersionFile> {
+    let r = crate::version::recovery::recover(folder)?;
+    let mut gc_stats: Vec<_> = r
+        .gc_stats
+        .iter()
+        .map(|(id, e)| (*id, e.len, e.bytes, e.on_disk_bytes))
+        .collect();
+    gc_stats.sort_unstable();
+    Ok(DecodedVersionFile {
+        version_id: r.curr_version_id,
+        tree_type: r.tree_type.into(),
+        levels: r
+            .table_ids
+            .iter()
+            .map(|lvl| {
+                lvl.iter()
+                    .map(|run| {
+                        run.iter()
+                            .map(|t| (t.id, t.checksum.into_u128(), t.global_seqno))
+                            .collect()
+                    })
+                    .collect()
+            })
+            .collect(),
+        blob_files: r
+            .blob_file_ids
+            .iter()
+            .map(|(id, c)| (*id, c.into_u128()))
+            .collect(),
+        gc_stats,
+    })
+}
+
+/// Counters that hand out file ids (next table id, next blob file id).
+pub fn id_counters(tree: &crate::AnyTree) -> (u64, u64) {
+    let t = index_tree(tree);
+    (t.table_id_counter.get(), t.blob_file_id_counter.get())
+}
